@@ -51,7 +51,7 @@ def fsm(text, tech=FSM_TECH, note=FSM_NOTE):
 CHECKS.update({
     "C01": fsm("enter/exit pairing automaton per instance, advanced on every lifecycle delivery and compared with activeStateId()/isActive(i)/isActive() inside "
                "every callback and after every API call (update, react, query, change*, immediate*, plan edits, reports, save/load, replay, enter/exit, copy, "
-               "destruction) over 16 machine configurations; held on the histories counted in the evidence."),
+               "destruction, type-form and id-form calls) over 22 machine configurations (1..32 states, limits 1..255, capacities 1..254, five context kinds, seven payload kinds, four alias orders); held on the histories counted in the evidence."),
     "C02": fsm("per processing call: the request each guard round evaluates must be the latest one issued (harness-tracked), the applied exit/enter/reenter must be "
                "exactly that of the last surviving round, requests change nothing when made (full observer comparison), nothing is applied outside processing points."),
     "C03": fsm("structure of every guard round (exit guard of the active state, then entry guard of the destination unless cancelled; pendingTransition = request under "
